@@ -3,6 +3,7 @@ package rules
 import (
 	"fmt"
 	"go/token"
+	"go/types"
 	"strings"
 
 	"coapcheck/internal/core"
@@ -294,6 +295,29 @@ func c17Selection(e *Env) {
 			}
 		}
 		e.R.Check(ok, rule, "mux.Router.Match:longest-match", e.fpos(f), "a route becomes the candidate only after pathMatch and only if none yet or strictly longer", why)
+		// "longer" is measured in bytes of the pattern: the ordering comparison of the scan compares the builtin len of a string
+		// with the recorded length (another measure – runes, segments – orders the patterns differently)
+		nCmp, badMeasure := 0, ""
+		core.Instrs(f, func(in ssa.Instruction) {
+			b, isB := in.(*ssa.BinOp)
+			if !isB || (b.Op != token.GTR && b.Op != token.LSS && b.Op != token.GEQ && b.Op != token.LEQ) {
+				return
+			}
+			for _, side := range []ssa.Value{b.X, b.Y} {
+				c, isCall := core.Resolve(core.Unwrap(side)).(*ssa.Call)
+				if !isCall || len(c.Call.Args) != 1 {
+					continue
+				}
+				if bt, isStr := c.Call.Args[0].Type().Underlying().(*types.Basic); !isStr || bt.Kind() != types.String {
+					continue
+				}
+				nCmp++
+				if bi, isBuiltin := c.Call.Value.(*ssa.Builtin); !isBuiltin || bi.Name() != "len" {
+					badMeasure = "patterns are ordered by " + describeCall(c) + " at " + e.pos(b) + ", not by their length in bytes: the byte-longer of two matching patterns can lose"
+				}
+			}
+		})
+		e.R.Check(badMeasure == "" && nCmp >= 1, rule, "mux.Router.Match:longest-in-bytes", e.fpos(f), "the scan orders matching patterns by len(pattern)", badMeasure)
 		// full scan: the loop over r.z has no early exit
 		var nx *ssa.Next
 		core.Instrs(f, func(in ssa.Instruction) {
